@@ -5737,3 +5737,462 @@ func isNilIdent(e ast.Expr) bool {
 	id, ok := ast.Unparen(e).(*ast.Ident)
 	return ok && id.Name == "nil"
 }
+
+// VS1 (C04): a definition is identified by itself or by its qualified name wherever references are followed. The name of
+// a type definition is unique inside its namespace only; `SimpleType.ResolvedDefinition` leads into imported namespaces.
+// A function that follows ResolvedDefinition and keeps a set or table keyed by the bare `.Name` of definitions merges
+// `App.Header` with `Lib.Header`: the second one is taken for already seen — left out of the protocol schema, so that a
+// change of the imported definition no longer changes the schema.
+func ruleDefinitionsKeyedByIdentity(c *core.Ctx) {
+	const rule = "VS1"
+	c.Rule(rule, "a function that follows SimpleType.ResolvedDefinition keys no map by the unqualified Name of a type definition (the definition itself or GetQualifiedName() instead)", 8)
+	dslPkg := c.Pkg("pkg/dsl")
+	if dslPkg == nil {
+		c.Undecided(rule, "anchor/pkg/dsl", 0, "package not loaded")
+		return
+	}
+	tdIface, _ := dslPkg.Types.Scope().Lookup("TypeDefinition").(*types.TypeName)
+	if tdIface == nil {
+		c.Undecided(rule, "anchor/TypeDefinition", 0, "interface not found")
+		return
+	}
+	iface, _ := tdIface.Type().Underlying().(*types.Interface)
+	for _, d := range c.AllDecls() {
+		p := c.DeclPkg(d)
+		if p == nil || d.Body == nil || c.IsTestFile(d.Pos()) || !strings.HasPrefix(p.PkgPath, core.Mod) {
+			continue
+		}
+		info := p.TypesInfo
+		follows := token.NoPos
+		ast.Inspect(d.Body, func(nn ast.Node) bool {
+			if sel, ok := nn.(*ast.SelectorExpr); ok && sel.Sel.Name == "ResolvedDefinition" && follows == token.NoPos {
+				if nt := core.NamedOf(derefType(info.TypeOf(sel.X))); nt != nil && nt.Obj().Name() == "SimpleType" {
+					follows = sel.Pos()
+				}
+			}
+			return true
+		})
+		if follows == token.NoPos {
+			continue
+		}
+		isDefinition := func(e ast.Expr) bool {
+			t := info.TypeOf(e)
+			if t == nil {
+				return false
+			}
+			if nt := core.NamedOf(derefType(t)); nt != nil && nt.Obj().Name() == "DefinitionMeta" {
+				return true
+			}
+			if _, isIface := t.Underlying().(*types.Interface); isIface {
+				return iface != nil && types.Identical(t.Underlying(), iface)
+			}
+			return iface != nil && (types.Implements(t, iface) || types.Implements(types.NewPointer(t), iface)) && !isPrimitiveDefinitionType(t)
+		}
+		var bareName func(e ast.Expr, depth int) bool
+		bareName = func(e ast.Expr, depth int) bool {
+			switch x := ast.Unparen(e).(type) {
+			case *ast.SelectorExpr:
+				return x.Sel.Name == "Name" && isDefinition(x.X)
+			case *ast.Ident:
+				if depth < 2 {
+					if r := singleDefRHS(info, d.Body, x); r != ast.Expr(x) {
+						return bareName(r, depth+1)
+					}
+				}
+			}
+			return false
+		}
+		n := 0
+		ast.Inspect(d.Body, func(nn ast.Node) bool {
+			ix, ok := nn.(*ast.IndexExpr)
+			if !ok {
+				return true
+			}
+			if _, isMap := derefType(info.TypeOf(ix.X)).Underlying().(*types.Map); !isMap {
+				return true
+			}
+			n++
+			key := fmt.Sprintf("%s/map#%d", c.FuncName(d), n)
+			c.Check(!bareName(ix.Index, 0), rule, key, ix.Pos(), "not keyed by a bare definition name",
+				fmt.Sprintf("`%s` is keyed by the unqualified name `%s` in a function that follows ResolvedDefinition (%s) into other namespaces: two definitions with the same name in different namespaces are taken for one", types.ExprString(ix.X), types.ExprString(ix.Index), c.PosStr(follows)))
+			return true
+		})
+		if n == 0 {
+			c.OK(rule, c.FuncName(d)+"/no map", d.Pos(), "follows ResolvedDefinition and keeps no map")
+		}
+	}
+}
+
+func derefType(t types.Type) types.Type {
+	if t == nil {
+		return types.Typ[types.Invalid]
+	}
+	if pt, ok := t.(*types.Pointer); ok {
+		return pt.Elem()
+	}
+	return t
+}
+
+// primitives and generic type parameters are definitions by interface only: their names are not scoped by a namespace
+func isPrimitiveDefinitionType(t types.Type) bool {
+	nt := core.NamedOf(derefType(t))
+	return nt != nil && (nt.Obj().Name() == "PrimitiveDefinition" || nt.Obj().Name() == "GenericTypeParameter")
+}
+
+// T8 / T9 (C20): nothing is lost before the watch exists, and a scheduled regeneration regenerates.
+// T8: the package directory is put under watch (`watcher.Add(".")`) without waiting for the first generation: in the
+// function that adds it, no earlier statement synchronously runs a generation (a call that reaches generateImpl; a `go`
+// statement does not wait). A save made while the first, slow generation runs would otherwise produce no event at all.
+// T9: the function the debounce timer runs (time.AfterFunc(_, f)) calls the generation on every path: no `return` in
+// front of it, not inside a condition. A regeneration that can decide to skip (mtime comparisons, "nothing changed")
+// leaves output that does not correspond to the files on disk.
+func ruleWatchStartsBeforeGeneratingAndAlwaysGenerates(c *core.Ctx) {
+	const rule8, rule9 = "T8", "T9"
+	c.Rule(rule8, "internal/cmd: in the function that adds \".\" to the fsnotify watcher no earlier statement synchronously reaches generateImpl", 1)
+	c.Rule(rule9, "internal/cmd: the function handed to time.AfterFunc reaches generateImpl through a top-level statement that no `return` precedes", 1)
+	gi, _, _ := c.Func("internal/cmd", "generateImpl")
+	if gi == nil {
+		c.Undecided(rule8, "anchor/internal/cmd.generateImpl", 0, "anchor function not found")
+		c.Undecided(rule9, "anchor/internal/cmd.generateImpl", 0, "anchor function not found")
+		return
+	}
+	n8, n9 := 0, 0
+	for _, d := range c.AllDecls() {
+		p := c.DeclPkg(d)
+		if p == nil || p.PkgPath != core.Mod+"/internal/cmd" || d.Body == nil || c.IsTestFile(d.Pos()) {
+			continue
+		}
+		info := p.TypesInfo
+		lits := map[types.Object]*ast.FuncLit{}
+		ast.Inspect(d.Body, func(n ast.Node) bool {
+			if as, ok := n.(*ast.AssignStmt); ok && len(as.Lhs) == 1 && len(as.Rhs) == 1 {
+				if fl, ok := as.Rhs[0].(*ast.FuncLit); ok {
+					if o := identObj(info, as.Lhs[0]); o != nil {
+						lits[o] = fl
+					}
+				}
+			}
+			return true
+		})
+		var callReaches func(ce *ast.CallExpr, depth int) bool
+		// does running this node synchronously reach generateImpl? (`go` statements and literals that are only
+		// stored do not run here)
+		var runs func(n ast.Node, depth int) bool
+		runs = func(n ast.Node, depth int) bool {
+			hit := false
+			ast.Inspect(n, func(x ast.Node) bool {
+				if hit {
+					return false
+				}
+				switch y := x.(type) {
+				case *ast.GoStmt:
+					return false
+				case *ast.FuncLit:
+					return false
+				case *ast.CallExpr:
+					if callReaches(y, depth) {
+						hit = true
+						return false
+					}
+					// literals passed as arguments may run inside the callee
+					for _, a := range y.Args {
+						if fl, ok := ast.Unparen(a).(*ast.FuncLit); ok && depth < 4 && runs(fl.Body, depth+1) {
+							if f := core.Callee(info, y); f == nil || core.FullName(f) != "time.AfterFunc" {
+								hit = true
+							}
+						}
+					}
+				}
+				return !hit
+			})
+			return hit
+		}
+		callReaches = func(ce *ast.CallExpr, depth int) bool {
+			if depth > 4 {
+				return false
+			}
+			switch a := ast.Unparen(ce.Fun).(type) {
+			case *ast.FuncLit:
+				return runs(a.Body, depth+1)
+			case *ast.Ident:
+				if fl := lits[identObj(info, a)]; fl != nil {
+					return runs(fl.Body, depth+1)
+				}
+			}
+			f := core.Callee(info, ce)
+			if f == nil || !core.InModule(f) {
+				return false
+			}
+			return f.Origin() == gi || c.PathToStatic(f.Origin(), func(g *types.Func) bool { return g == gi }, nil) != nil
+		}
+		// every function body of this declaration: the declaration itself and its literals
+		type fbody struct {
+			name string
+			body *ast.BlockStmt
+		}
+		bodies := []fbody{{c.FuncName(d), d.Body}}
+		ast.Inspect(d.Body, func(n ast.Node) bool {
+			if fl, ok := n.(*ast.FuncLit); ok {
+				bodies = append(bodies, fbody{c.FuncName(d) + "/func literal", fl.Body})
+			}
+			return true
+		})
+		for _, fb := range bodies {
+			for i, s := range fb.body.List {
+				// T8: this top-level statement adds "." to a watcher
+				adds := token.NoPos
+				ast.Inspect(s, func(x ast.Node) bool {
+					if _, ok := x.(*ast.FuncLit); ok {
+						return false
+					}
+					if ce, ok := x.(*ast.CallExpr); ok && len(ce.Args) == 1 {
+						if f := core.Callee(info, ce); f != nil && strings.HasSuffix(core.FullName(f), "fsnotify.Watcher).Add") {
+							if tv, ok := info.Types[ce.Args[0]]; ok && tv.Value != nil && tv.Value.Kind() == constant.String && constant.StringVal(tv.Value) == "." {
+								adds = ce.Pos()
+							}
+						}
+					}
+					return true
+				})
+				if adds == token.NoPos {
+					continue
+				}
+				n8++
+				var before ast.Stmt
+				// a statement whose generation is followed by leaving the function (the one-shot branch
+				// `if !watch { generate; return }`) is not in front of the Add on any path
+				var runsAndContinues func(e ast.Stmt) bool
+				runsAndContinues = func(e ast.Stmt) bool {
+					switch x := e.(type) {
+					case *ast.IfStmt:
+						if x.Init != nil && runs(x.Init, 0) || runs(x.Cond, 0) {
+							return true
+						}
+						if !goReturns(x.Body.List) {
+							for _, b := range x.Body.List {
+								if runsAndContinues(b) {
+									return true
+								}
+							}
+						}
+						switch el := x.Else.(type) {
+						case *ast.BlockStmt:
+							if !goReturns(el.List) {
+								for _, b := range el.List {
+									if runsAndContinues(b) {
+										return true
+									}
+								}
+							}
+						case *ast.IfStmt:
+							return runsAndContinues(el)
+						}
+						return false
+					case *ast.BlockStmt:
+						if goReturns(x.List) {
+							return false
+						}
+						for _, b := range x.List {
+							if runsAndContinues(b) {
+								return true
+							}
+						}
+						return false
+					}
+					return runs(e, 0)
+				}
+				for _, e := range fb.body.List[:i] {
+					if runsAndContinues(e) {
+						before = e
+						break
+					}
+				}
+				if before == nil {
+					c.OK(rule8, fb.name+"/watch the package directory", adds, "no generation runs in front of it")
+				} else {
+					c.Bad(rule8, fb.name+"/watch the package directory", adds, fmt.Sprintf("the statement at %s runs a generation to completion before the package directory is watched: files saved while that generation runs produce no event and the output stays stale until the next save", c.PosStr(before.Pos())))
+				}
+			}
+		}
+		// T9: functions handed to time.AfterFunc
+		ast.Inspect(d.Body, func(n ast.Node) bool {
+			ce, ok := n.(*ast.CallExpr)
+			if !ok || len(ce.Args) != 2 {
+				return true
+			}
+			if f := core.Callee(info, ce); f == nil || core.FullName(f) != "time.AfterFunc" {
+				return true
+			}
+			var body *ast.BlockStmt
+			switch a := ast.Unparen(ce.Args[1]).(type) {
+			case *ast.FuncLit:
+				body = a.Body
+			case *ast.Ident:
+				if fl := lits[identObj(info, a)]; fl != nil {
+					body = fl.Body
+				} else if fn, ok := info.Uses[a].(*types.Func); ok {
+					if fd := c.Decl(fn); fd != nil {
+						body = fd.Body
+					}
+				}
+			}
+			if body == nil {
+				return true
+			}
+			n9++
+			key := c.FuncName(d) + "/debounced function"
+			hasReturn := func(s ast.Stmt) bool {
+				found := false
+				ast.Inspect(s, func(x ast.Node) bool {
+					if _, ok := x.(*ast.FuncLit); ok {
+						return false
+					}
+					if _, ok := x.(*ast.ReturnStmt); ok {
+						found = true
+					}
+					return !found
+				})
+				return found
+			}
+			status := "none"
+			for _, s := range body.List {
+				direct := false
+				switch x := s.(type) {
+				case *ast.ExprStmt:
+					if c2, ok := x.X.(*ast.CallExpr); ok && callReaches(c2, 0) {
+						direct = true
+					}
+				case *ast.AssignStmt:
+					for _, r := range x.Rhs {
+						if c2, ok := ast.Unparen(r).(*ast.CallExpr); ok && callReaches(c2, 0) {
+							direct = true
+						}
+					}
+				case *ast.DeclStmt:
+					if runs(s, 0) {
+						direct = true
+					}
+				}
+				if direct {
+					status = "ok"
+					break
+				}
+				if hasReturn(s) {
+					status = "return"
+					c.Bad(rule9, key, s.Pos(), "the function the debounce timer runs can return before it generates: an event burst that was scheduled is dropped and the output no longer corresponds to the files on disk")
+					break
+				}
+				if runs(s, 0) {
+					status = "conditional"
+					c.Bad(rule9, key, s.Pos(), "the function the debounce timer runs generates only inside a condition")
+					break
+				}
+			}
+			switch status {
+			case "ok":
+				c.OK(rule9, key, body.Pos(), "the generation is the first thing that can leave the function")
+			case "none":
+				c.Bad(rule9, key, body.Pos(), "the function the debounce timer runs never reaches generateImpl")
+			}
+			return true
+		})
+	}
+	if n8 == 0 {
+		c.Undecided(rule8, "anchor/watcher.Add(\".\")", 0, "no call adds the package directory to the watcher")
+	}
+	if n9 == 0 {
+		c.Undecided(rule9, "anchor/time.AfterFunc", 0, "no debounce timer found")
+	}
+}
+
+// S3 (C07): leaving the `with` block closes through the state machine. The generated Python writer and reader are
+// context managers; `__exit__` is how most callers close them. The method it calls is one whose emitted body compares
+// the protocol state (the completeness check of close()): calling the raw resource release (`_close`) instead skips
+// "closed before all steps were written" and the terminator of a trailing stream.
+func ruleExitClosesThroughStateCheck(c *core.Ctx) {
+	const rule = "S3"
+	c.Rule(rule, "python/protocols: the emitted `__exit__` of the abstract writer and reader calls (as `self.<m>()`) a method whose emitted body compares the protocol state", 2)
+	defRe := regexp.MustCompile(`^\s*def\s+([\w%]+)\s*\(`)
+	callRe := regexp.MustCompile(`self\.(\w+)\(\)`)
+	all := pkgRows(c, "internal/python/protocols")
+	called := map[string]bool{}
+	for fd := range all {
+		for _, cs := range c.Calls(fd) {
+			if cs.Callee != nil && c.DeclPkg(fd) != nil && cs.Callee.Pkg() == c.DeclPkg(fd).Types && cs.Callee.Name() != fd.Name.Name {
+				called[cs.Callee.Name()] = true
+			}
+		}
+	}
+	n := 0
+	var decls []*ast.FuncDecl
+	for fd := range all {
+		decls = append(decls, fd)
+	}
+	sort.Slice(decls, func(i, j int) bool { return decls[i].Pos() < decls[j].Pos() })
+	for _, fd := range decls {
+		if fd.Recv != nil || called[fd.Name.Name] {
+			continue
+		}
+		rows, _ := flatRows(c, "internal/python/protocols", fd.Name.Name)
+		// emitted methods: name -> rows of the body, in emission order
+		type method struct {
+			name string
+			rows []gee.Row
+			pos  token.Pos
+		}
+		var ms []*method
+		var cur *method
+		for _, r := range rows {
+			if r.Kind != "emit" {
+				continue
+			}
+			if m := defRe.FindStringSubmatch(r.Tmpl); m != nil {
+				name := m[1]
+				if strings.Contains(name, "%") || name == "s" {
+					name = "<step>"
+				}
+				cur = &method{name: name, pos: r.Pos}
+				ms = append(ms, cur)
+				continue
+			}
+			if strings.HasPrefix(strings.TrimSpace(r.Tmpl), "class ") {
+				cur = nil
+				continue
+			}
+			if cur != nil {
+				cur.rows = append(cur.rows, r)
+			}
+		}
+		// per class (an `__exit__` belongs to the methods emitted by the same generator function)
+		checks := map[string]bool{}
+		for _, m := range ms {
+			for _, r := range m.rows {
+				if stateCmpRe.MatchString(r.Tmpl) {
+					checks[m.name] = true
+				}
+			}
+		}
+		for _, m := range ms {
+			if m.name != "__exit__" {
+				continue
+			}
+			n++
+			key := fmt.Sprintf("%s/__exit__#%d", fd.Name.Name, n)
+			var calls []string
+			ok := false
+			for _, r := range m.rows {
+				for _, cm := range callRe.FindAllStringSubmatch(r.Tmpl, -1) {
+					calls = append(calls, cm[1])
+					if checks[cm[1]] {
+						ok = true
+					}
+				}
+			}
+			c.Check(ok, rule, key, m.pos, "calls a method that checks the protocol state: "+strings.Join(calls, ", "),
+				fmt.Sprintf("the emitted __exit__ calls %v, none of which compares the protocol state in its emitted body: leaving a `with` block neither reports missing steps nor ends a trailing stream", calls))
+		}
+	}
+	if n == 0 {
+		c.Undecided(rule, "anchor/__exit__", 0, "no emitted __exit__ found in python/protocols")
+	}
+}
